@@ -93,7 +93,7 @@ class FileSystemLoader(BaseLoader):
         return TemplateSource(
             source,
             str(source_path),
-            partial(self._uptodate, source_path, mtime),
+            partial(self._still_resolves, template_name, source_path, mtime),
         )
 
     @staticmethod
@@ -103,10 +103,22 @@ class FileSystemLoader(BaseLoader):
         except OSError:
             return False
 
-    @staticmethod
-    async def _uptodate_async(source_path: Path, mtime: float) -> bool:
+    def _still_resolves(
+        self, template_name: str, source_path: Path, mtime: float
+    ) -> bool:
+        # A file that has since appeared earlier on the search path takes over.
+        try:
+            if self.resolve_path(template_name) != source_path:
+                return False
+        except TemplateNotFoundError:
+            return False
+        return self._uptodate(source_path, mtime)
+
+    async def _uptodate_async(
+        self, template_name: str, source_path: Path, mtime: float
+    ) -> bool:
         return await asyncio.get_running_loop().run_in_executor(
-            None, partial(FileSystemLoader._uptodate, source_path, mtime)
+            None, partial(self._still_resolves, template_name, source_path, mtime)
         )
 
     async def get_source_async(
@@ -122,5 +134,7 @@ class FileSystemLoader(BaseLoader):
         source_path = await loop.run_in_executor(None, self.resolve_path, template_name)
         source, mtime = await loop.run_in_executor(None, self._read, source_path)
         return TemplateSource(
-            source, str(source_path), partial(self._uptodate_async, source_path, mtime)
+            source,
+            str(source_path),
+            partial(self._uptodate_async, template_name, source_path, mtime),
         )
